@@ -31,7 +31,7 @@ from vt.gen.trees import Topo, names_for, topology
 from vt.oracle import like as OL
 from vt.oracle import numdiff
 from vt.props import c08, c09
-from vt.runner import HarnessError, Res, Sub, guarded, raises_kind
+from vt.runner import HarnessError, Res, Sub
 
 PROPERTY = "C12"
 LEVEL = "exploration"
@@ -351,7 +351,7 @@ class Engine:
             for i in infos:
                 p = leaves[i["id"]]
                 if not p.requires_grad:
-                    self.lab("requires_grad_reset_by_build")
+                    self.lab("requires_grad_reset_by_build:%s/%s" % (i["owner"], i["role"]))
                     p.requires_grad = True
             v_ad, grads = self.autodiff(infos, leaves)
         # ---- finite differences on detached tensors, re-assigned through the public setter
@@ -506,6 +506,16 @@ class Engine:
                 return self.value()
 
             g, err, meta = numdiff.derivative(f, h)
+            for _ in range(2):
+                # the step was chosen from the size of the parameter; if the value varies on a shorter scale the tableau says so
+                # (large correction, little round-off): restart with a smaller step
+                if not meta["finite"] or err <= 1e-7 * max(1.0, abs(g)) or meta["noise"] > 0.1 * err:
+                    break
+                g2, err2, meta2 = numdiff.derivative(f, h / 8.0)
+                if not meta2["finite"] or err2 >= err:
+                    break
+                h /= 8.0
+                g, err, meta = g2, err2, meta2
             setx(0.0, d)
             out.append({"dir": name, "d": d, "fd": g, "err": err, "noise": meta["noise"], "h": meta["h"], "h0": h, "finite": meta["finite"]})
         p.tensor = x0.clone()
@@ -893,8 +903,6 @@ def coal_specs(c):
 
 
 def coal_events(dic, c):
-    grid = c08.grid_of(c["p"])
-
     def ev():
         m = dic["coal"]
         e = arr(m.tree_model.node_heights).reshape(-1).tolist()
@@ -993,14 +1001,23 @@ def prepare_bdsk(c):
 
 
 def bdsk_specs(c):
+    """-> (specs, infos, id of the target)"""
     t = c["tree"]
-    topo, names, h0 = c09.tree_heights(t)
-    n = topo.n
+    topo, names, _ = c09.tree_heights(t)
     h = {int(k): v for k, v in c["_h"].items()}
     x0 = h[topo.root] + c["extra"]
     T = [0.0] + [x0 - b for b in c["bh"]] + [x0]
     ts, ti = tree_specs(topo, t["tip_heights"], h, c["kind"], names=names)
     m = len(c["R"])
+    if c.get("constant_class"):
+        # the constant-rate class with the same (documented) conversion of the epidemiological parameters
+        lam, mu, psi = c09.epi(c["R"][0], c["delta"][0], c["s"][0])
+        cls = "BirthDeathModel"
+        spec = {"id": "bd", "type": cls, "tree_model": "tree", "lambda": tt.P("bd.lambda", [lam]), "mu": tt.P("bd.mu", [mu]),
+                "psi": tt.P("bd.psi", [psi]), "rho": tt.P("bd.rho", [0.0]), "origin": tt.P("bd.origin", [x0]), "survival": c["survival"]}
+        infos = [info("bd.lambda", cls, "lambda", "pos"), info("bd.mu", cls, "mu", "pos"), info("bd.psi", cls, "psi", "pos"),
+                 info("bd.rho", cls, "rho", "fixed"), info("bd.origin", cls, "origin", "lower", lower=h[topo.root])]
+        return ts + [spec], infos + ti, "bd"
     cls = "BDSKModel"
     spec = {"id": "bdsk", "type": cls, "tree_model": "tree", "R": tt.P("R", c["R"]), "delta": tt.P("delta", c["delta"]), "s": tt.P("s", c["s"]),
             "rho": tt.P("rho", c["rho"]), "survival": c["survival"]}
@@ -1033,18 +1050,7 @@ def bdsk_specs(c):
     if "r" in c:
         spec["removal_probability"] = tt.P("r", c["r"])
         infos.append(info("r", cls, "removal_probability", "unit"))
-    specs = ts + [spec]
-    th = t["tip_heights"]
-    if c.get("constant_class"):
-        lam, mu, psi = c09.epi(c["R"][0], c["delta"][0], c["s"][0])
-        specs.append({"id": "bd", "type": "BirthDeathModel", "tree_model": "tree", "lambda": tt.P("bd.lambda", [lam]), "mu": tt.P("bd.mu", [mu]),
-                      "psi": tt.P("bd.psi", [psi]), "rho": tt.P("bd.rho", [0.0]), "origin": tt.P("bd.origin", [x0]), "survival": c["survival"]})
-        infos = [info("bd.lambda", "BirthDeathModel", "lambda", "pos"), info("bd.mu", "BirthDeathModel", "mu", "pos"),
-                 info("bd.psi", "BirthDeathModel", "psi", "pos"), info("bd.rho", "BirthDeathModel", "rho", "fixed"),
-                 info("bd.origin", "BirthDeathModel", "origin", "lower", lower=h[topo.root])] + ti
-        specs = ts + [specs[-1]]
-        return specs, infos, "bd"
-    return specs, infos + ti, "bdsk"
+    return ts + [spec], infos + ti, "bdsk"
 
 
 def bdsk_events(dic, target):
